@@ -220,3 +220,53 @@ func ZZ_C02_AcrossSplit() {
 		}
 	}
 }
+
+// C02 after a partial record: a session whose record was closed as a partial
+// record once (online usage reported with a non-FINAL trigger) and then goes
+// on: a later update is recorded in the session's record, and the release
+// closes it with cause "normal release" and records its usage too.
+//
+//gosx:property=C02 tier=quick unwind=40 timeout=30000
+func ZZ_C02_ReleaseAfterPartialRecord() {
+	p := zzSetup()
+	zzAccount(zzSupi, 1, 1000000, 10)
+	ref, _ := zzCreate(p, "A", zzSupi)
+	ue, found := chf_context.GetSelf().ChfUeFindBySupi(zzSupi)
+	if !found {
+		vx.Fail("subscriber context exists")
+		return
+	}
+	mk := func(l string, online bool) models.ChfConvergedChargingMultipleUnitUsage {
+		u, _ := zzUsageInd(l, 1, 1, 1)
+		zzSmallUsage(&u)
+		if online {
+			u.UsedUnitContainer[0].QuotaManagementIndicator = models.QuotaManagementIndicator_ONLINE_CHARGING
+		}
+		return u
+	}
+	u1 := mk("u1", true)
+	c1 := &gin.Context{}
+	p.HandleChargingdataUpdate(c1, models.ChfConvergedChargingChargingDataRequest{SubscriberIdentifier: zzSupi,
+		MultipleUnitUsage: []models.ChfConvergedChargingMultipleUnitUsage{u1},
+		Triggers:          []models.ChfConvergedChargingTrigger{zzTrigger("trigger.kind")}}, ref)
+	vx.Assert("update answered 200", vx.HTTPStatus(c1) == 200)
+	n1 := len(zzUsageList(ue, ref))
+	u2 := mk("u2", vx.Choice("secondOnline", 2) == 1)
+	c2 := &gin.Context{}
+	if vx.Choice("then", 2) == 0 {
+		p.HandleChargingdataUpdate(c2, models.ChfConvergedChargingChargingDataRequest{SubscriberIdentifier: zzSupi,
+			MultipleUnitUsage: []models.ChfConvergedChargingMultipleUnitUsage{u2}}, ref)
+		vx.Assert("second update answered 200", vx.HTTPStatus(c2) == 200)
+	} else {
+		p.HandleChargingdataRelease(c2, models.ChfConvergedChargingChargingDataRequest{SubscriberIdentifier: zzSupi,
+			MultipleUnitUsage: []models.ChfConvergedChargingMultipleUnitUsage{u2}}, ref)
+		vx.Assert("release answered 204", vx.HTTPStatus(c2) == 204)
+		rec := ue.Cdr[ref]
+		vx.Assert("cause for closing of a released session is normal release", rec != nil && rec.ChargingFunctionRecord != nil && rec.ChargingFunctionRecord.CauseForRecClosing.Value == 0)
+	}
+	got := zzUsageList(ue, ref)
+	vx.Assert("the later report is recorded once in the session's record", len(got) == n1+1)
+	if len(got) == n1+1 {
+		vx.Assert("and unchanged", zzSameUsage(got[n1], u2))
+	}
+}
